@@ -13,6 +13,15 @@ def t2(sx, S, prefix, rsv, oldlens, lens, long):
     return ndefflow.roundtrip(sx, w, n)
 
 
+def t1(sx, hr, size, prefix, rsv, oldlens, lens, long):
+    oldlen = sx.pick("oldlen", oldlens)
+    w = worlds.T1World(sx, tuple(hr), size, prefix, [tuple(r) for r in rsv], oldlen,
+                       old_lt_80=long)
+    w.long_trick = long
+    n = sx.pick("n", [x for x in lens_for(w.cap, lens)])
+    return ndefflow.roundtrip(sx, w, n)
+
+
 def lens_for(cap, lens):
     out = []
     for x in lens:
@@ -65,12 +74,34 @@ def partitions(tier):
             parts.append(dict(name="t2:%d:%s:short" % (S, prefix or "-"), fn="t2",
                               params=dict(S=S, prefix=prefix, rsv=rsv, oldlens=[0, 255],
                                           lens=[0, 1, 5], long=False)))
+    # ---- Type 1
+    T1 = [("topaz", (0x11, 0x48), 120, "", []),
+          ("static", (0x11, 0x00), 120, "N", []),
+          ("static-m", (0x11, 0x48), 120, "M", [(40, 8)]),
+          ("topaz512", (0x12, 0x4C), 512, "LM", [(122, 6), (120, 2)]),
+          ("dynamic", (0x12, 0x00), 512, "NLM", [(122, 6), (200, 9)]),
+          ("dynamic-bare", (0x12, 0x4C), 512, "", [])]
+    for name, hr, size, prefix, rsv in T1:
+        parts.append(dict(name="t1:%s:free" % name, fn="t1",
+                          params=dict(hr=hr, size=size, prefix=prefix, rsv=rsv, oldlens=[0, 2],
+                                      lens=[0, 1, 2] if tier == "quick" else [0, 1, 2, 3, 4],
+                                      long=False)))
+        lens = [3, 9, "cap-1", "cap", "cap+1"]
+        if size > 300:
+            lens = [9, 100, 253, 254, 255, 256, "cap-1", "cap", "cap+1"]
+        if tier != "quick" and size == 120:
+            lens = list(range(3, 92))
+        parts.append(dict(name="t1:%s:sep" % name, fn="t1",
+                          params=dict(hr=hr, size=size, prefix=prefix, rsv=rsv,
+                                      oldlens=[0, 5] if size == 120 else [0, 5, 255],
+                                      lens=lens, long=True)))
     return parts
 
 
 MUST_REACH = ["oversize_rejected", "empty_message_written", "three_byte_length",
               "message_fills_capacity", "rsv_inside_message", "rsv_before_ndef_tlv",
-              "rsv_beyond_data_area", "rsv_at_end_of_data_area", "rsv_after_message"]
+              "rsv_beyond_data_area", "rsv_at_end_of_data_area", "rsv_after_message",
+              "t1_message_spans_reserved_blocks"]
 BOUNDS = {"quick": "T2: data areas 48/496 bytes, 13 control-TLV layouts, boundary message lengths; all contents symbolic",
           "thorough": "T2: data areas 48 (every length)/496/872/2032"}
 OUTSIDE = ["data area sizes other than listed", "more than one lock- and one memory-control TLV"]
